@@ -87,9 +87,11 @@ class RefSkipWhile(Ref):
 
 class RefDefaultIfEmpty(Ref):
     init = False                 # seen an item?
+    extra = ("set_flag",)        # `not empty` is recorded before the item goes out: a completion arriving while the item is being
+                                 # delivered (re-entrantly, or from another thread) must not add the default
 
     def next(self, st, inp):
-        return (("emit", "item"),), True, False
+        return (("set_flag",), ("emit", "item")), True, False
 
     def complete(self, st):
         return (("complete",),) if st else (("emit", "captured"), ("complete",))
@@ -1141,6 +1143,26 @@ def seq_equal_rule(P, E, H):
     except Undecided as e:
         r.error("SEQ-EQ: completion handler not decidable: %s" % e)
         return r
+    # the row test: `all` over the row with a closure that answers `element == first`
+    nb_ = ts[0]["handlers"].get("N")
+    if nb_ is not None:
+        alls = [c for c in nb_.calls if c.path in ("std::iter::Iterator::all", "std::iter::Iterator::any")]
+        for c in alls:
+            for tg in E.inline_targets(c):
+                try:
+                    Sc = Summary(P, E, tg, item_param=2, item_kind="item")
+                except Undecided:
+                    continue
+                for p_ in Sc.paths:
+                    ret = p_.env.get(0)
+                    r.instance((root, "row test"), True, "closure of %s returns %s" % (c.path.split("::")[-1], _show_b(ret) if is_bool(ret) else ret))
+                    want_eq = c.path.endswith("::all")
+                    ok = is_bool(ret) and ((ret[0] == "bvar" and ret[1].startswith("in:eq") and want_eq) or
+                                           (ret[0] == "not" and ret[1][0] == "bvar" and ret[1][1].startswith("in:eq") and not want_eq))
+                    if not ok:
+                        r.violate((root, "row test is not element == first"),
+                                  "sequence_equal's row test hands %s a closure that does not answer `%s`"
+                                  % (c.path.split("::")[-1], "element == first" if want_eq else "element != first"), body=tg)
     uncond_true = [p for p in S.paths if not [e for e in p.pc] and any(x[0] == "sink_next" and x[1] == "const:true" for x in p.trace)]
     r.instance((root, "zip element type"), True, "zip types %s; unconditional `true` on completion: %s"
                % ([z.get("s") for z in zips], bool(uncond_true)))
@@ -1594,6 +1616,29 @@ def _rejoins(b, good, bad, pop_sites):
     return False
 
 
+def _tests_nonempty(cb):
+    """does this closure answer `queue is not empty` (len() > 0, len() >= 1, len() != 0, !is_empty())?"""
+    for i in sorted(cb.reach):
+        for st in cb.blocks[i]["stmts"]:
+            if st["k"] != "assign":
+                continue
+            rv = st["rv"]
+            if rv.get("k") == "binop" and rv.get("op") in ("Gt", "Ge", "Ne", "Lt", "Le"):
+                a_, b_ = rv["a"], rv["b"]
+                la = any(x[0] == "ret" and (cb.call_at(x[1]) and cb.call_at(x[1]).path.endswith("::len")) for x in cb.operand_prov(a_)) if a_.get("k") != "const" else False
+                lb = any(x[0] == "ret" and (cb.call_at(x[1]) and cb.call_at(x[1]).path.endswith("::len")) for x in cb.operand_prov(b_)) if b_.get("k") != "const" else False
+                if la and b_.get("k") == "const":
+                    return (rv["op"], b_.get("int")) in (("Gt", 0), ("Ge", 1), ("Ne", 0))
+                if lb and a_.get("k") == "const":
+                    return (rv["op"], a_.get("int")) in (("Lt", 0), ("Le", 1), ("Ne", 0))
+            if rv.get("k") == "unop" and rv.get("op") == "Not":
+                for x in cb.operand_prov(rv.get("a") or {"k": "const"}):
+                    k = cb.call_at(x[1]) if x[0] == "ret" else None
+                    if k is not None and k.path.endswith("::is_empty"):
+                        return True
+    return False
+
+
 def _all_nonempty_polarity(P, E, b, discr, depth=0):
     """True if the boolean operand means `every queue has an item`, False for its negation, None if unrelated"""
     if depth > 5 or discr.get("k") not in ("copy", "move"):
@@ -1614,6 +1659,17 @@ def _all_nonempty_polarity(P, E, b, discr, depth=0):
                     srcs.append(names)
                 if any("count" in s_ for s_ in srcs) and any("len" in s_ for s_ in srcs):
                     out = (rv["op"] == "Eq")
+                    # what is counted must be the non-empty queues
+                    for o in (rv["a"], rv["b"]):
+                        for x in b.operand_prov(o):
+                            k = b.call_at(x[1]) if x[0] == "ret" else None
+                            if k is not None and k.path.endswith("::count") and k.args:
+                                for y in b.operand_prov(k.args[0]):
+                                    kf = b.call_at(y[1]) if y[0] == "ret" else None
+                                    if kf is not None and kf.path.endswith("Iterator::filter"):
+                                        for tg in E.inline_targets(kf):
+                                            if not _tests_nonempty(P.orig.get(tg.id, tg)):
+                                                out = None
             elif rv.get("k") == "unop" and rv.get("op") == "Not":
                 inner = _all_nonempty_polarity(P, E, b, rv.get("a"), depth + 1)
                 out = None if inner is None else (not inner)
